@@ -101,6 +101,28 @@ def run(ctx):
             pj = params_json(before)
             idx = drv.add(dict(pj, op="setparams", set=[[fld, enc(v)]]))
             pending.append(("setparams", idx, params_json(after), case))
+        # --- several parameters in ONE call (what GridSearchCV does with a multi-parameter grid)
+        for trial in range(3):
+            names = ctx.rng.sample(["max_dt_sec", "innovation_filtering", "extra_validation", "common_subexpression_elimination"], 2)
+            vals = {nm: ctx.rng.choice(fields[nm]) for nm in names}
+            a2 = copy.copy(ad)
+            before = a2.get_params()
+            if trial == 2:   # a whole config object together with a field name
+                vals = {"config": python.Config(max_dt_sec=0.25, innovation_filtering=2.0), "extra_validation": True}
+            case = dict(desc, op="set-config-multi", values={k2: repr(v2) for k2, v2 in vals.items()})
+            ctx.case(case, True); ctx.count("op=set-config-multi")
+            try:
+                a2.set_params(**vals)
+            except Exception as e:
+                ctx.fail("set-config-raises:multi", f"set_params with several names raises {e!r}"[:300], case); continue
+            cfg_after = dataclasses.asdict(a2.get_params()["config"])
+            want = dataclasses.asdict(vals["config"]) if "config" in vals else dataclasses.asdict(before["config"])
+            want.update({k2: v2 for k2, v2 in vals.items() if k2 != "config"})
+            if cfg_after != want:
+                ctx.fail("set-config-frame:multi", f"set_params({case['values']}) gives config {cfg_after}, expected {want}", case)
+            if "config" not in vals:
+                idx = drv.add(dict(params_json(before), op="setparams", set=[[k2, enc(v2)] for k2, v2 in vals.items()]))
+                pending.append(("setparams", idx, params_json(a2.get_params()), case))
         # --- unknown keys
         for bad in (gen.fresh_names(ctx.rng, 1)[0] + "_zz", "max_dt", "Config", "process_noises"):
             a2 = copy.copy(ad)
@@ -143,12 +165,20 @@ def run(ctx):
                 if any(got[k] is not getattr(a4, k) for k in ("symbolic_model", "sensor_models", "calibration_map", "config")):
                     ctx.fail("inverse-touches-rest", "re-assembling noise replaced a parameter other than the noise maps", case)
     # --- fit
-    nfit = 2 if ctx.quick else 12
+    nfit = 3 if ctx.quick else 12
     for i in range(nfit):
         d = gen.tame_definition(ctx.rng, n_state=2, n_control=ctx.rng.choice([0, 1]), n_sensors=1, max_readings=ctx.rng.choice([1, 2]))
+        if i % 4 == 1:
+            # constant-velocity model: passes the (slow) extra validation quickly, so extra_validation=True can be exercised
+            xs, vs, us, dts = sympy.symbols("px pv pu dt")
+            d = gen.Definition(dts, [xs, vs], [us], [], {xs: xs + dts * vs, vs: vs + dts * us}, {"odo": {"speed": vs, "place": xs}})
         process, sensor = eh.make_noises(ctx.rng, d)
         with fk.quiet():
             ad = C16.make_adapter(d, process, sensor, {}, None)
+            if i % 2 == 1:   # a non-default configuration must survive fitting too
+                ad.set_params(config=python.Config(innovation_filtering=ctx.rng.choice([None, 7.0]), max_dt_sec=0.05,
+                                                   common_subexpression_elimination=False, extra_validation=(i % 4 == 1)))
+        cfg_value_before = dataclasses.asdict(ad.get_params()["config"])
         width = len(d.control) + sum(len(rd) for rd in d.sensors.values())
         nrows = ctx.rng.choice([2, 3, 6])
         X = np.array([[float(gen.dyadic(ctx.rng, -2, 2)) for _ in range(width)] for _ in range(nrows)], dtype=float)
@@ -171,8 +201,9 @@ def run(ctx):
         ctx.count(f"fit_outcome={outcome}"); ctx.count(f"fit_seconds<={int(math.ceil(time.time() - t0))}")
         if outcome == "returned":
             after = res.get_params()
-            if any(after[k] is not keep[k] for k in keep):
-                ctx.fail("fit-changes-non-noise", "fit changed the model, the sensor models, the calibration or the configuration", case)
+            if any(after[k] is not keep[k] for k in keep if k != "config") or dataclasses.asdict(after["config"]) != cfg_value_before:
+                ctx.fail("fit-changes-non-noise", "fit changed the model, the sensor models, the calibration or the configuration "
+                         f"(config before {cfg_value_before}, after {dataclasses.asdict(after['config'])})", case)
             pn = after["process_noise"]
             if sorted(str(k) for k in pn) != sorted(s.name for s in d.control) or any(not (math.isfinite(v) and v > 0) for v in pn.values()):
                 ctx.fail("fit-process-noise", f"fitted process noise {pn} is not a finite positive magnitude per control", case)
